@@ -76,8 +76,8 @@ func rulePollLoopTable(c *an.Ctx, o *an.O) {
 		kOther
 	)
 	type scenario struct {
-		own          bool
-		kind         int
+		own           bool
+		kind          int
 		found, differ bool
 	}
 	var lastSim *an.BoolSim
